@@ -208,6 +208,12 @@ impl<'a> R<'a> {
                             return Some(format!("qx_call(&{}, {})", self.expr(&u.expr), args.join(", ")));
                         }
                     }
+                    // (self.f)(args): the same through auto-deref of a field holding the function object
+                    if let Expr::Field(_) = &*p.expr {
+                        self.note("R15 `(x.f)(args)` -> qx_call(&x.f, args) (prelude: the function object's own specification)");
+                        let args: Vec<String> = c.args.iter().map(|a| self.expr(a)).collect();
+                        return Some(format!("qx_call(&{}, {})", self.expr(&p.expr), args.join(", ")));
+                    }
                 }
             }
         }
@@ -256,10 +262,15 @@ impl<'a> R<'a> {
                             if mc.method == m.trim() && (rc == recv_txt || (rc == "(tuple)" && is_tuple) || rc == "*") {
                                 self.note(format!("R8 method call `{}.{}` -> prelude/extracted function `{}`", rc, m.trim(), f.trim()));
                                 // `=>&f`: the receiver is a place (e.g. a field), passed by reference as auto-ref does
-                                let (f, by_ref) = match f.trim().strip_prefix('&') { Some(g) => (g, true), None => (f.trim(), false) };
-                                let mut args = vec![if by_ref { format!("&{}", self.expr(&mc.receiver)) } else { self.expr(&mc.receiver) }];
-                                for a in mc.args.iter() {
-                                    args.push(self.expr(a));
+                                // `=>&mut f`: by mutable reference; a trailing `!` drops the call's own arguments (e.g. the comparator of
+                                // sort_by, when the helper is specified for that very comparator)
+                                let (f, drop_args) = match f.trim().strip_suffix('!') { Some(g) => (g.trim(), true), None => (f.trim(), false) };
+                                let (f, refkind) = match f.strip_prefix("&mut ") { Some(g) => (g.trim(), "&mut "), None => match f.strip_prefix('&') { Some(g) => (g.trim(), "&"), None => (f, "") } };
+                                let mut args = vec![format!("{}{}", refkind, self.expr(&mc.receiver))];
+                                if !drop_args {
+                                    for a in mc.args.iter() {
+                                        args.push(self.expr(a));
+                                    }
                                 }
                                 return Some(format!("{}({})", f.trim(), args.join(", ")));
                             }
